@@ -179,6 +179,45 @@ def run(prog, rep, tier='quick', config='default'):
     if n_amt < 2:
         rep.violation('R18f', 'anchor-lost:cash-amount-sites', detail='anchor lost: only %d cash amounts handed to the FX tracker found' % n_amt)
 
+    # R18g: the --account pattern is matched against the account's type and number (the documented account string), nothing more
+    ACC = 'peripheral::broker::broker_tx::Account'
+    conv = [f for f in prog.product_fns() if f.name.startswith('peripheral::tx_export_convert_impl::')]
+    matches = [(f, c) for f in conv for c in f.calls if c.short == 'is_match' and 'regex' in c.callee and len(c.args) > 1]
+    n_acc = 0
+    for (f, c) in matches:
+        o = mir.provenance(f, c.args[1], follow_all_call_args=True)
+        if not any(re.search(r'^&*' + re.escape(ACC) + r'$', f.ty.get(l, '')) for l in o.locals) and not any(fl == 'account' for (_, fl) in o.fields):
+            continue
+        n_acc += 1
+        text_fns = []
+        for x in o.calls:
+            g = prog.resolve(x.callee, f.crate)
+            if g is not None:
+                text_fns.append(g)
+            elif x.short == 'to_string' and x.arg_local(0) is not None and ACC in f.ty.get(x.arg_local(0), ''):
+                text_fns += [h for h in prog.product_fns() if h.name.startswith('<' + ACC + ' as std::fmt::Display>')]
+        read = set()
+        for g in text_fns:
+            for h in [g] + list(prog.callees_closure([g]).values()):
+                for b in h.blocks.values():
+                    for st in b['stmts']:
+                        for pl in h.stmt_sources(st):
+                            read |= {fl for (of, fl) in mir.place_fields(pl) if of == ACC}
+                    t = b['term']
+                    if t and t['t'] == 'call':
+                        for a in t['args']:
+                            if is_place(a):
+                                read |= {fl for (of, fl) in mir.place_fields(a['pl']) if of == ACC}
+        k = '%s|account-pattern-matches-type-and-number' % f.name.split('::{')[0]
+        if 'account_num' in read and 'broker_name' not in read:
+            rep.ok('R18g', k, where=c.where(), fn=f.name, detail='the matched text is built from Account.%s' % ', Account.'.join(sorted(read)))
+        else:
+            rep.violation('R18g', k, where=c.where(), fn=f.name,
+                          detail='the text the --account pattern is matched against is built from Account.{%s}: a pattern anchored on the documented '
+                                 'account string ("<type> <number>") no longer selects the account' % ', '.join(sorted(read)))
+    if n_acc == 0:
+        rep.violation('R18g', 'anchor-lost:account-filter', detail='anchor lost: no regex match on an account text in the converter')
+
     # R18e: numeric cells are converted with the shortest-representation conversion
     retain = [c for f in prog.product_fns() for c in f.calls if re.search(r'Decimal::from_f(64|32)_retain$', c.callee)]
     if retain:
